@@ -33,6 +33,9 @@ from sim.refmodel import aggregate, heuristics, pairs, sampler, stats, streaming
 from sim import workload as wlmod
 
 CKPT = 'ranking_checkpoint_tmp.tsv'
+# the monitored functions as imported from /repo, before any monitor wraps them (a long-lived simulated process
+# installs fresh monitors for every task it runs)
+_PRISTINE = {n: getattr(core_ranking, n) for n in ('compute_batch_ranking', 'mixed_rank_graph', 'prior_combinations_sample', 'estimate_importances_minibatches')}
 MI_HEURISTICS = {'MI', 'MI-numba-randomized', 'MI-numba-3mr', 'max-value-coverage', 'correlation-Pearson', 'AMI', 'Constant'}
 
 
@@ -118,7 +121,10 @@ def _coded(values):
 
 
 class Monitors:
-    def __init__(self, sim, spec, wl, cli):
+    def __init__(self, sim, spec, wl, cli, shared=None, run_index=0):
+        shared = shared if shared is not None else {}
+        self.shared = shared
+        self.run_index = run_index
         self.sim = sim
         self.spec = spec
         self.wl = wl
@@ -129,7 +135,10 @@ class Monitors:
         self.probes = {}
         self.batches_rows = []         # rows of each compute_batch_ranking call
         self.batch_triplets = []       # triplets returned per batch
-        self.sampler_model = sampler.SamplerModel()
+        # process-global state outlives a task: the sampler's counter and the statistics storages of a long-lived
+        # interpreter keep what earlier tasks of the same process fed them
+        self.sampler_model = shared.setdefault('sampler_model', sampler.SamplerModel())
+        self.col_prev = shared.setdefault('col_prev', {})
         self.sampler_calls = 0
         self.log = _LogProxy()
         self.expected = streaming.batches(wl['lines'], cli['subsampling'], cli['minibatch_size'])
@@ -153,16 +162,31 @@ class Monitors:
 
     def violate(self, prop, cls, detail):
         if len(self.violations) < 20:
+            if self.run_index:
+                detail = dict(detail, task_number_in_process=self.run_index + 1)
             self.violations.append({'property': prop, 'class': cls, 'detail': detail})
+
+    def history(self, j, col, rows=None):
+        """All values column `col` has shown to the statistics of this PROCESS: earlier tasks + this one."""
+        rows = rows if rows is not None else [r for b in self.batches_rows for r in b]
+        return self.col_prev.get(col, []) + [r[j] for r in rows]
+
+    def end_of_task(self):
+        focus = self.cli.get('feature_set_focus')
+        keep = None if not focus else set(focus.split(',')) | {self.cli['label_column']}
+        rows = [r for b in self.batches_rows for r in b]
+        for j, col in enumerate(self.wl['header']):
+            if keep is None or col in keep:
+                self.col_prev[col] = self.col_prev.get(col, []) + [r[j] for r in rows]
 
     # ------------------------------------------------------------------------------ install
     def install(self):
         m = self
         cr = core_ranking
-        orig_cbr = cr.compute_batch_ranking
-        orig_mrg = cr.mixed_rank_graph
-        orig_pcs = cr.prior_combinations_sample
-        orig_eim = cr.estimate_importances_minibatches
+        orig_cbr = _PRISTINE['compute_batch_ranking']
+        orig_mrg = _PRISTINE['mixed_rank_graph']
+        orig_pcs = _PRISTINE['prior_combinations_sample']
+        orig_eim = _PRISTINE['estimate_importances_minibatches']
 
         # the wrappers are signature-transparent (*a, **kw): a refactoring that adds a parameter to one of the
         # monitored functions must not look like a defect of the code under test
@@ -274,7 +298,7 @@ class Monitors:
         for j, col in enumerate(header):
             if focus and col not in set(focus.split(',')) | {self.cli['label_column']}:
                 continue
-            vals = [r[j] for r in rows]
+            vals = self.history(j, col, rows)
             sk = core_ranking.GLOBAL_CARDINALITY_STORAGE.get(col)
             exact = stats.distinct_nonempty(vals)
             if sk is None:
@@ -300,7 +324,7 @@ class Monitors:
                                                                'got_size': None if cnt is None else len(cnt.default_counter), 'model_size': len(model.c)})
         if self.cli['task'] == 'identify_rare_values':
             thr = self.cli['rare_value_count_upper_bound']
-            by_col = {col: [r[j] for r in rows] for j, col in enumerate(header)}
+            by_col = {col: self.history(j, col, rows) for j, col in enumerate(header)}
             exp = stats.rare_values(by_col, thr)
             got = dict(core_ranking.GLOBAL_RARE_VALUE_STORAGE)
             if got != exp:
@@ -529,11 +553,11 @@ class Monitors:
             if plain not in header:
                 continue
             j = header.index(plain)
-            exact = stats.distinct_nonempty([r[j] for r in rows])
+            exact = stats.distinct_nonempty(self.history(j, plain, rows))
             per_batch = [stats.coverage(b, len(header), missing)[j] for b in self.batches_rows]
             expcov = stats.annotation_coverage(per_batch)
             if card != exact:
-                vals = [r[j] for r in rows]
+                vals = self.history(j, plain, rows)
                 hashed = len({core_ranking.internal_hash(v) for v in vals if v})
                 if hashed == card and exact - hashed <= max(1, exact * exact // 2 ** 30):
                     self.probe('hash32_collision_explained')
@@ -558,7 +582,7 @@ class Monitors:
                 if not self.cli.get('feature_set_focus'):
                     self.violate('C13', 'histogram-missing-column', {'column': col})
                 continue
-            vals = [r[j] for r in rows]
+            vals = self.history(j, col, rows)
             if len(set(vals)) >= bound:
                 model = stats.BoundedCounter(bound)
                 for v in vals:
@@ -578,7 +602,7 @@ class Monitors:
         header = self.wl['header']
         rows = [r for b in self.batches_rows for r in b]
         thr = self.cli['rare_value_count_upper_bound']
-        exp = stats.rare_values({col: [r[j] for r in rows] for j, col in enumerate(header)}, thr)
+        exp = stats.rare_values({col: self.history(j, col, rows) for j, col in enumerate(header)}, thr)
         if not os.path.exists(p):
             self.violate('C13', 'no-rare-report', {'expected_entries': len(exp)})
             return
@@ -652,7 +676,8 @@ def simulated_process(spec, phase, root):
         sim.crash_at = (phase['crash'][0], int(phase['crash'][1]))
     fscfg = spec.get('fs', {})
     fs = simfs.SimFS(sim, root, write_through=fscfg.get('write_through', True), short_reads=fscfg.get('short_reads', False))
-    mon = Monitors(sim, spec, wl, cli)
+    shared = {}
+    mon = Monitors(sim, spec, wl, cli, shared=shared)
     pools = []
 
     def _on_close(path):
@@ -750,7 +775,49 @@ def simulated_process(spec, phase, root):
                 files[f] = hashlib.blake2b(fh.read(), digest_size=8).hexdigest()
     extra['files'] = files
     extra['ckpt_left'] = os.path.exists(os.path.join(work, CKPT))
-    return collect(status, extra)
+    first = collect(status, extra)
+    # ---- a long-lived interpreter: further tasks in the SAME simulated process (process-global state carried over)
+    later = []
+    for ri, more in enumerate(spec.get('more_runs') or [], start=1):
+        if status in ('stuck', 'crashed-unwound') or 'final_check_error' in extra:
+            break
+        mon.end_of_task()
+        wl2 = more.get('workload') or wl
+        cli2 = dict(cli)
+        cli2.update(more.get('cli', {}))
+        mon = Monitors(sim, spec, wl2, cli2, shared=shared, run_index=ri)
+        mon.install()
+        fs.install()
+        argv2 = build_argv(cli2, os.path.join(root, more.get('data_dir', 'data')))
+        argv2[argv2.index('--output_folder') + 1] = f'out{ri}'
+        sys.argv = argv2
+        st2, ex2 = 'completed', {}
+        try:
+            outrank_main.main()
+        except SystemExit as e:
+            st2 = 'exit'
+        except SimStuck as e:
+            st2 = 'stuck'
+            ex2['error'] = str(e)
+        except BaseException:  # noqa: BLE001
+            st2 = 'exception'
+            ex2['trace'] = traceback.format_exc()[-2500:]
+        finally:
+            sys.argv = old_argv
+            fs.uninstall()
+        try:
+            ex2.update(mon.final_checks(os.path.join(work, f'out{ri}'), st2))
+        except BaseException:  # noqa: BLE001
+            ex2['final_check_error'] = traceback.format_exc()[-1500:]
+        later.append(dict(ex2, status=st2, violations=mon.violations, probes=mon.probes, stream_returned=mon.stream_returned,
+                          expected_batches=len(mon.expected['batches']), batches=len(mon.batches_rows), cli=more.get('cli', {})))
+        status = st2 if st2 == 'stuck' else status
+    if later:
+        first['later_runs'] = later
+        first['digest'] = sim.trace.digest()
+        first['sim_now'] = sim.now
+        first['ranks_all'] = [first.get('ranks')] + [l.get('ranks') for l in later]
+    return first
 
 
 def inspect_disk(root):
@@ -819,6 +886,15 @@ def job_run(job):
         if a['workload'].get('source') == 'ob-csv':
             with open(os.path.join(root, 'data', 'dataset_desc.json'), 'w') as fh:
                 fh.write(wlmod.dataset_desc(a['workload']))
+        for ri, more in enumerate(a.get('more_runs') or [], start=1):
+            if more.get('workload'):
+                more['data_dir'] = f'data{ri}'
+                os.makedirs(os.path.join(root, more['data_dir']))
+                with open(os.path.join(root, more['data_dir'], 'data.csv'), 'wb') as fh:
+                    fh.write(wlmod.render(more['workload']))
+                if more['workload'].get('source') == 'ob-csv':
+                    with open(os.path.join(root, more['data_dir'], 'dataset_desc.json'), 'w') as fh:
+                        fh.write(wlmod.dataset_desc(more['workload']))
         if a.get('dirty_files'):
             os.makedirs(os.path.join(root, 'work', 'out'), exist_ok=True)
             for rel, content in a['dirty_files'].items():
